@@ -130,6 +130,13 @@ func (n *ManyToOneNode) forward(index int) port.Listener {
 				n.tracer.Write(nil, inPck)
 			}
 		}
+
+		// The writers are shared by the readers of all input ports: only once the process has
+		// exited is everything still awaited downstream moot.
+		if proc.Status() == process.StatusTerminated {
+			n.tracer.Drop(outWriter)
+			n.tracer.Drop(errWriter)
+		}
 	})
 }
 
